@@ -23,19 +23,19 @@ def nodePathsFrom (t : Tree) : Nat → List (Nat × Nat × Nat) → List (Nat ×
 def nodePathsOf (t : Tree) : List (Nat × Nat × Nat) := nodePathsFrom t 5 [(0, 0, 0)]
 
 /-- child `idx` of the node reached by the `8d` bits `pv` is what the code table prescribes: a leaf carries the symbol
-whose code is those bits followed by the first `r` bits of `idx`; a pointer leads to a listed node and no code is a
-prefix of the bits leading to it; a nil child means that the bits start with EOS.  `cOf` / `lOf` look the table up. -/
+whose code is those bits followed by the first `r` bits of `idx`; a pointer leads to a listed node; a nil child means
+that the bits start with EOS.  `cOf` / `lOf` look the table up. -/
 def entOk (cOf lOf : Nat → Nat) (ps : List (Nat × Nat × Nat)) (d pv idx : Nat) : Ent → Bool
   | .leaf sym r =>
     1 ≤ r && r ≤ 8 && sym < 256 && lOf sym == 8 * d + r && cOf sym == pv * 2 ^ r + idx / 2 ^ (8 - r)
-  | .ptr id =>
-    ps.contains (id, d + 1, pv * 256 + idx) &&
-    (List.range 256).all (fun s => !(isPrefixCode (cOf s, lOf s) (pv * 256 + idx, 8 * (d + 1))))
+  | .ptr id => ps.contains (id, d + 1, pv * 256 + idx)
   | .none => isPrefixCode (MosnVerif.Model.Huffman.eosCode, MosnVerif.Model.Huffman.eosLen) (pv * 256 + idx, 8 * (d + 1))
 
 def treeOkFor (cOf lOf : Nat → Nat) (t : Tree) (ps : List (Nat × Nat × Nat)) : Bool :=
   ps.contains (0, 0, 0) &&
-  ps.all (fun n => decide (n.2.2 < 2 ^ (8 * n.2.1)) &&
+  ps.all (fun n => decide (n.2.2 < 2 ^ (8 * n.2.1)) && decide (n.2.1 < 4) &&
+    -- no code is a prefix of the bits that lead to an internal node
+    (List.range 256).all (fun s => !(isPrefixCode (cOf s, lOf s) (n.2.2, 8 * n.2.1))) &&
     (List.range 256).all (fun idx => entOk cOf lOf ps n.2.1 n.2.2 idx (t.child n.1 idx)))
 
 /-! ### the fill loop as one arithmetic operation -/
@@ -190,16 +190,13 @@ def foldStrict : List (Nat × Nat) → Nat → Nat → Nat → Bool → (Nat →
       addDecoderNodeK cells count bad sym code len (fun cells' count' bad' => forceBool bad' (fun bad'' =>
         forceNat (i + 1) (fun i' => foldStrict r i' cells' count' bad'' k))))))
 
-/-- the same fold, not strict, over (code, length) pairs -/
-def buildStep2 (b : Build) (cli : (Nat × Nat) × Nat) : Build := addDecoderNode b (cli.2 % 256) cli.1.1 cli.1.2
-
 theorem foldStrict_eq (l : List (Nat × Nat)) (i cells count : Nat) (bad : Bool) (k : Nat → Nat → Bool → Bool) :
     foldStrict l i cells count bad k =
-      (let b := (l.zipIdx i).foldl buildStep2 { tree := ⟨cells, count⟩, bad := bad }
+      (let b := (l.zipIdx i).foldl buildStep { tree := ⟨cells, count⟩, bad := bad }
        k b.tree.cells b.tree.count b.bad) := by
   induction l generalizing i cells count bad with
   | nil => rfl
-  | cons cl r ih => simp [foldStrict, forceNat_eq, forceBool_eq, addDecoderNodeK_eq, ih, buildStep2, List.zipIdx_cons]
+  | cons cl r ih => simp [foldStrict, forceNat_eq, forceBool_eq, addDecoderNodeK_eq, ih, buildStep, List.zipIdx_cons]
 
 def forcePaths : List (Nat × Nat × Nat) → (List (Nat × Nat × Nat) → Bool) → Bool
   | [], k => k []
@@ -233,5 +230,90 @@ def checkAll : Bool :=
       !bad && forcePaths (nodePathsOf ⟨cells, count⟩) (fun ps => treeOkFor (packedCode tab) (packedLen tab) ⟨cells, count⟩ ps)))
 
 theorem checkAll_true : checkAll = true := by decide +kernel
+
+/-! ### what the check gives -/
+
+def packFold : List (Nat × Nat) → Nat → Nat → Nat
+  | [], _, acc => acc
+  | cl :: r, i, acc => packFold r (i + 1) (acc + (cl.1 % 2 ^ 32 + 2 ^ 32 * (cl.2 % 256)) * 2 ^ (40 * i))
+
+theorem packTable_eq (l : List (Nat × Nat)) (i acc : Nat) (k : Nat → Bool) : packTable l i acc k = k (packFold l i acc) := by
+  induction l generalizing i acc with
+  | nil => rfl
+  | cons cl r ih => simp [packTable, packFold, forceNat_eq, ih]
+
+theorem packedOk_spec (tab : Nat) (l : List (Nat × Nat)) (i : Nat) (h : packedOk tab l i = true) (j : Nat) (hj : j < l.length) :
+    packedCode tab (i + j) = (l.getD j (0, 0)).1 ∧ packedLen tab (i + j) = (l.getD j (0, 0)).2 := by
+  induction l generalizing i j with
+  | nil => simp at hj
+  | cons cl r ih =>
+    simp only [packedOk, Bool.and_eq_true, beq_iff_eq] at h
+    cases j with
+    | zero => simpa using h.1
+    | succ j =>
+      have := ih (i + 1) h.2 j (by simpa using hj)
+      simpa [Nat.add_assoc, Nat.add_comm 1 j] using this
+
+/-- the packed table of the check -/
+def tabP : Nat := packFold (huffmanCodes.zip huffmanCodeLen) 0 0
+
+/-- the internal nodes of the tree `buildRootHuffmanNode` builds, with the bits leading to them -/
+def nodePaths : List (Nat × Nat × Nat) := nodePathsOf huffTree
+
+theorem tree_eta (t : Tree) : (⟨t.cells, t.count⟩ : Tree) = t := rfl
+
+theorem check_facts :
+    huffmanCodes.length = 256 ∧ huffmanCodeLen.length = 256 ∧
+    packedOk tabP (huffmanCodes.zip huffmanCodeLen) 0 = true ∧ buildRoot.bad = false ∧
+    treeOkFor (packedCode tabP) (packedLen tabP) huffTree nodePaths = true := by
+  have h := checkAll_true
+  unfold checkAll at h
+  rw [packTable_eq] at h
+  simp only [foldStrict_eq, forcePaths_eq, Bool.and_eq_true, beq_iff_eq, Bool.not_eq_true'] at h
+  simp only [tree_eta] at h
+  unfold nodePaths huffTree buildRoot tabP
+  exact ⟨h.1.1, h.1.2, h.2.1, h.2.2.1, h.2.2.2⟩
+
+theorem table_len : huffmanCodes.length = 256 ∧ huffmanCodeLen.length = 256 := ⟨check_facts.1, check_facts.2.1⟩
+
+theorem packed_eq (s : Nat) (hs : s < 256) : packedCode tabP s = codeOf s ∧ packedLen tabP s = lenOf s := by
+  have h := packedOk_spec tabP _ 0 check_facts.2.2.1 s (by simp [List.length_zip, table_len.1, table_len.2]; exact hs)
+  have h1 : s < huffmanCodes.length := by rw [table_len.1]; exact hs
+  have h2 : s < huffmanCodeLen.length := by rw [table_len.2]; exact hs
+  have hz' : (huffmanCodes.zip huffmanCodeLen)[s]? = some (huffmanCodes[s]'h1, huffmanCodeLen[s]'h2) :=
+    List.getElem?_zip_eq_some.2 ⟨List.getElem?_eq_getElem h1, List.getElem?_eq_getElem h2⟩
+  rw [Nat.zero_add, List.getD_eq_getElem?_getD, hz', Option.getD_some] at h
+  unfold codeOf lenOf
+  rw [List.getD_eq_getElem?_getD, List.getD_eq_getElem?_getD, List.getElem?_eq_getElem h1, List.getElem?_eq_getElem h2,
+    Option.getD_some, Option.getD_some]
+  exact h
+
+theorem entOk_congr (c l c' l' : Nat → Nat) (hc : ∀ s, s < 256 → c s = c' s ∧ l s = l' s)
+    (ps : List (Nat × Nat × Nat)) (d pv idx : Nat) (e : Ent) (h : entOk c l ps d pv idx e = true) :
+    entOk c' l' ps d pv idx e = true := by
+  cases e with
+  | none => exact h
+  | leaf sym r =>
+    simp only [entOk, Bool.and_eq_true, decide_eq_true_eq, beq_iff_eq] at h ⊢
+    obtain ⟨⟨⟨⟨h1, h2⟩, h3⟩, h4⟩, h5⟩ := h
+    exact ⟨⟨⟨⟨h1, h2⟩, h3⟩, by rw [← (hc sym h3).2]; exact h4⟩, by rw [← (hc sym h3).1]; exact h5⟩
+  | ptr id => exact h
+
+theorem build_ok : buildRoot.bad = false := check_facts.2.2.2.1
+
+theorem root_mem : (0, 0, 0) ∈ nodePaths := by
+  have h := check_facts.2.2.2.2
+  simp only [treeOkFor, Bool.and_eq_true, List.contains_iff_mem] at h
+  exact h.1
+
+theorem node_ok (n d pv : Nat) (hn : (n, d, pv) ∈ nodePaths) :
+    pv < 2 ^ (8 * d) ∧ d < 4 ∧ (∀ s, s < 256 → isPrefixCode (codeOf s, lenOf s) (pv, 8 * d) = false) ∧
+    ∀ idx, idx < 256 → entOk codeOf lenOf nodePaths d pv idx (huffTree.child n idx) = true := by
+  have h := check_facts.2.2.2.2
+  simp only [treeOkFor, Bool.and_eq_true, List.all_eq_true, decide_eq_true_eq, List.mem_range, Bool.not_eq_true'] at h
+  have := h.2 (n, d, pv) hn
+  refine ⟨this.1.1.1, this.1.1.2, fun s hs => ?_, fun idx hi => entOk_congr _ _ _ _ packed_eq _ _ _ _ _ (this.2 idx hi)⟩
+  rw [← (packed_eq s hs).1, ← (packed_eq s hs).2]
+  exact this.1.2 s hs
 
 end MosnVerif.Lemmas.HuffTreeCheck
